@@ -142,6 +142,13 @@ func applyMuts(data []byte, muts []mut) []byte {
 		case "hostile-col":
 			cols[ci] = hostileFields[mod(m.Arg, len(hostileFields))]
 			lines[li] = strings.Join(cols, "\t")
+		case "byte-col":
+			// the column becomes one arbitrary byte (strand / frame / score columns index tables with it)
+			cols[ci] = string([]byte{byte(m.Arg)})
+			if cols[ci] == "\n" {
+				cols[ci] = "\x80"
+			}
+			lines[li] = strings.Join(cols, "\t")
 		case "keep-cols":
 			cols = cols[:mod(m.Arg, len(cols)+1)]
 			lines[li] = strings.Join(cols, "\t")
@@ -185,7 +192,7 @@ func mod(a, n int) int {
 	return a
 }
 
-var mutOps = []string{"del-col", "dup-col", "empty-col", "hostile-col", "keep-cols", "dup-line", "del-line", "hostile-line", "set-byte", "truncate", "crlf", "space-for-tab"}
+var mutOps = []string{"del-col", "dup-col", "empty-col", "hostile-col", "byte-col", "byte-col", "keep-cols", "dup-line", "del-line", "hostile-line", "set-byte", "truncate", "crlf", "space-for-tab"}
 
 func genMutCase(t *rapid.T) mutCase {
 	c := mutCase{Format: rapid.SampledFrom([]string{"fasta", "fastq", "bed", "gff", "gff", "bed"}).Draw(t, "format")}
@@ -270,7 +277,7 @@ type invalidCase struct {
 }
 
 var nonNumeric = []string{"", "x", "1e3", "9223372036854775808", "+", "-", "١", "1.5", "0x", " 5", "5 ", "NaN", "one"}
-var badStrand = []string{"", "++", "x", "0", "+-", "?", "1", "\x00"}
+var badStrand = []string{"", "++", "x", "0", "+-", "?", "1", "\x00", "\x80", "\xab", "\xff", "\xc3\xa9", "\x7f", "~", "+\x80"}
 var badMeta = []string{"##gff-version", "##source-version", "##date", "##Type", "##sequence-region", "##sequence-region a", "##sequence-region a 1", "##DNA", "##RNA", "##Protein", "##dna", "##type"}
 
 var bedInvalid = []string{"missing-columns", "non-numeric-start", "non-numeric-end", "bad-strand"}
@@ -314,7 +321,7 @@ func genInvalid(t *rapid.T) invalidCase {
 			f.Recs = append(f.Recs, iogen.SeqRec{Name: "r", Pat: "acgt", Len: 4, QPat: []int{30}})
 		}
 		c.Seq = &f
-		c.Kind = "length-mismatch"
+		c.Kind = rapid.SampledFrom([]string{"length-mismatch", "length-mismatch", "quality-interior-blank"}).Draw(t, "kind")
 	}
 	return c
 }
@@ -387,7 +394,12 @@ func (c invalidCase) build() ([]byte, int) {
 				ls := strings.Split(strings.TrimSuffix(txt, "\n"), "\n")
 				q := ls[3]
 				d := 1 + mod(c.Arg, 3)
-				if c.Arg%2 == 0 || len(q) <= d {
+				if c.Kind == "quality-interior-blank" && len(q) >= 3 {
+					// the raw line keeps the length of the sequence, but one interior position
+					// is layout (a blank or a tab), not a score: one score is missing
+					k := 1 + mod(c.Arg, len(q)-2)
+					q = q[:k] + []string{" ", "\t"}[mod(c.Arg/7, 2)] + q[k+1:]
+				} else if c.Arg%2 == 0 || len(q) <= d {
 					q += strings.Repeat("I", d)
 				} else {
 					q = q[:len(q)-d]
